@@ -318,6 +318,10 @@ func legacyText(r *ev.Run, c *ev.Case) {
 		sb.WriteString(seps[c.Rand.Intn(len(seps))])
 	}
 	text := sb.String()
+	if c.Rand.Intn(12) == 0 && !strings.ContainsAny(text, "\"\\\n\t") {
+		// an argument list that kept its quotes: as a whole a JSON string literal, and still a legacy line
+		text = `"` + text + `"`
+	}
 	r.Eval(1)
 	var got *message.Attributes
 	var err error
